@@ -50,10 +50,11 @@ type CallIn struct {
 	List   []string `json:"list"`   // the updates sent: hex of the deterministic wire encoding of each
 	Failed []string `json:"failed"` // scripted result of UpdateFn: failed list …
 	Err    *ErrIn   `json:"err"`    // … and error (null = success)
+	Gone   bool     `json:"gone"`   // kind lostconn: the caller of this call goes away while the callback runs
 }
 
 type In struct {
-	Kind     string `json:"kind"` // upd | cfgupd | unstarted | stopped | starting-dial | starting-mute
+	Kind     string `json:"kind"` // upd | cfgupd | lostconn | unstarted | stopped | starting-dial | starting-mute
 	Idx      int    `json:"idx"`
 	P        int    `json:"P"`         // plugins
 	U        int    `json:"U"`         // updating goroutines per plugin
@@ -72,6 +73,16 @@ type In struct {
 	HSlowMs      int      `json:"hslow_ms"`       // plugin request handlers sleep this long
 	Calls        []CallIn `json:"calls"`
 	Seed         int64    `json:"seed"`
+	// the lostconn stream (lostconn.go): the caller of the call marked `gone` (plugin 0) goes away
+	// while the callback is running for it; the other plugins' updates and the runtime's requests
+	// are issued while the callback is STILL running
+	Fault        string  `json:"fault"`          // stop | kill | deadline | cancel
+	Order        string  `json:"order"`          // fault-probe | probe-fault
+	FaultAfterMs int     `json:"fault_after_ms"` // callback entry -> first step
+	ProbeAfterMs int     `json:"probe_after_ms"` // first step -> second step
+	HoldMs       int     `json:"hold_ms"`        // the callback keeps running this long after both steps
+	DeadlineMs   int     `json:"deadline_ms"`    // fault deadline: the caller's context expires this long after the call
+	ReqKinds     [][]int `json:"req_kinds"`      // per request goroutine: the kinds of its requests (0..6 as in runUpd)
 }
 
 type ErrObs struct {
@@ -112,6 +123,18 @@ type Obs struct {
 	Stacks string    `json:"stacks,omitempty"` // on "blocked": the goroutines inside the repository's packages
 	Result string    `json:"result"`           // kinds unstarted/stopped: noservice | error | ok | blocked
 	WallMs int64     `json:"wall_ms"`
+	Marks  MarksObs  `json:"marks"` // kind lostconn
+}
+
+// MarksObs: where, on the global sequence counter, the steps of a lostconn case happened
+// (0 = did not happen).
+type MarksObs struct {
+	Entered  int64 `json:"entered"`  // the callback of the gone call was entered (= its fn "in" stamp)
+	Fault    int64 `json:"fault"`    // the fault had been injected (Stop returned / socket closed / context cancelled or expired)
+	Probes   int64 `json:"probes"`   // every probe (request goroutine, other plugin's update) had been issued
+	CtxDone  int64 `json:"ctx_done"` // the callback saw its own context cancelled (the runtime noticed the caller was gone)
+	Hold     int64 `json:"hold"`     // the callback started its final dwell (hold_ms)
+	Attempts int   `json:"attempts"` // runs of this plan until one was effective (max 3)
 }
 
 var detMarshal = proto.MarshalOptions{Deterministic: true}
@@ -931,6 +954,7 @@ func generate(o *hx.Opts) []In {
 		genCalls(r, &in, 1)
 		out = append(out, in)
 	}
+	out = append(out, genLost(o, &idx)...)
 	for i := 0; i < n; i++ {
 		in := In{Kind: "upd", Idx: idx, Seed: r.Int63()}
 		idx++
@@ -988,7 +1012,9 @@ func Run(o *hx.Opts, w *lineio.Writer) error {
 			}
 			// schedule-dependent: a replayed plan is re-run several times, every run judged
 			reps := 10
-			if in.Kind != "upd" {
+			if in.Kind == "lostconn" {
+				reps = 3 // the steps are gated on each other, not raced: a few runs suffice
+			} else if in.Kind != "upd" {
 				reps = 1
 			} else if in.ReqTimeoutMs > 0 {
 				reps = 3 // a slow case takes seconds, and it is its queueing, not a rare schedule, that matters
@@ -1009,6 +1035,8 @@ func Run(o *hx.Opts, w *lineio.Writer) error {
 			obs = runUpd(in, dir)
 		case "cfgupd":
 			obs = runCfg(in, dir)
+		case "lostconn":
+			obs = runLostRetry(in, dir)
 		case "unstarted", "stopped", "starting-dial", "starting-mute":
 			obs = runLone(in, dir)
 		default:
